@@ -334,6 +334,8 @@ impl XorInterleaveMath {
     }
 
     pub fn add_xormap(&mut self, xormap: u64) {
+        // The number of bitmap entries is a single byte.
+        assert!(self.bitmaps.len() < u8::MAX as usize);
         self.bitmaps.push(xormap);
     }
 }
